@@ -50,10 +50,15 @@ struct Cfg {
 }
 
 fn target(dim: usize) -> Target {
-    Target::DiagNormal {
+    let t = Target::DiagNormal {
         mu: (0..dim).map(|i| 0.2 - 0.3 * i as f64).collect(),
         sigma: (0..dim).map(|i| 0.8 + 0.9 * i as f64).collect(),
+    };
+    if dim == 0 {
+        // a parameter-free model still has a log density, and it need not be 0
+        return Target::Offset { inner: Box::new(t), c: -3.5 };
     }
+    t
 }
 
 fn nuts_options(c: &Cfg) -> NutsOptions {
